@@ -174,4 +174,7 @@ def _fvd_half(case, v):
     if v["family"] != "as/fuel_vol_delta":
         return False
     r = v.get("detail", {}).get("ratio")
-    return r is not None and abs(r - 0.5) < 1e-5
+    # with point masses the fuel burn of the two models differs by the smearing share (C04/point_mass_smearing...), which the margin
+    # (a small difference of large volumes) amplifies
+    cross = [float(t.split("=")[1]) for t in _tags(v) if t.startswith("pm_cross=")]
+    return r is not None and abs(r - 0.5) < 1e-5 + (100.0 * cross[0] if cross else 0.0)
